@@ -1,5 +1,6 @@
 import SpecKitV.Lemmas.AnalyzerGlue
 import SpecKitV.Props.C01
+import SpecKitV.Props.C05
 
 #print axioms Model.coreStep_spec
 #print axioms Model.coreLoop_eq_map
@@ -20,3 +21,11 @@ import SpecKitV.Props.C01
 #print axioms stats_detrend0_auto_eq_ref
 #print axioms stats_poly_csd_eq_ref
 #print axioms stats_poly_auto_eq_ref
+#print axioms lpsdCore_eq_ref_cross
+#print axioms lpsdCore_eq_ref_auto
+#print axioms lpsdCore_bin_local
+#print axioms lpsdCore_band
+#print axioms winSums_spec
+#print axioms lpsdCore_single
+#print axioms lpsdCore_order1_add_line_auto
+#print axioms lpsdCore_order1_add_line_cross
